@@ -116,6 +116,18 @@ CLAIMED = {
              "model. Known findings K_fullrow_lf, K_zw_after_lf (recorded, classes excluded); F17 repaired.",
         note=TTY_NOTE + "Real terminals are represented by the emulator's stated assumptions.",
         technique="Coq proof: simulation between the terminal specification and calc_go by induction over the text; extracted-model differential check of every byte written + independent VT emulator oracle"),
+    "C19": dict(
+        text="Theorems over (a) a transition-system model of the ExternalPrinter protocol (writer mutex, channel of capacity 1, "
+             "wake-up pipe, one byte per wake-up) for ANY number of printer threads and EVERY interleaving: per thread, messages "
+             "shown ++ message in the channel ++ messages still to print is always exactly the thread's program (nothing lost, "
+             "shown twice or reordered; all shown once the thread is done), the pipe holds a byte exactly when an announced message "
+             "is in the channel (no spurious wake-up), some step is always enabled while anything is left to print, and a message in "
+             "the channel is shown by the editor's next step or announced by its sender's next step; (b) the editor model: showing a "
+             "message leaves text, cursor, undo stack and history untouched and writes the message whole, after clearing the old "
+             "rows, followed by a full redraw. PARTIAL: the protocol model is tied to the code by the oracle on real runs only "
+             "(sampled schedules); the redraw bytes are compared with the implementation byte for byte.",
+        note=TTY_NOTE + "Thread schedules below the protocol steps, and racing with the start/end of a read, are sampled.",
+        technique="Coq proof: invariant over an inductively defined step relation (all interleavings), progress by case analysis; editor-side by the keeps-calculus; extracted-model differential check of the message redraw through a pty + exactly-once/order oracle with an independent emulator"),
     "C13": dict(
         text="Theorems for every validator, editor state and text: executing Enter / C-j / C-m says Submit only if the verdict on "
              "the current text is Valid, and then text and cursor are exactly those validated; a Valid verdict does submit; "
